@@ -104,6 +104,44 @@ func body(c config, ctx *hk.Ctx) {
 		}
 		ws[s] = icpt.BindLocalStream(info, &sink{s, &out})
 	}
+	// fan-out of one received packet (what a forwarding application does): the same bytes are parsed once per
+	// outgoing stream - rtp.Header.Unmarshal lets extension payloads point into the buffer - and written first on
+	// a stream that negotiated the extension, then on the one that did not. The second copy and the buffer
+	// itself must still carry the number the packet arrived with.
+	fan := 0
+	if c.Existing == "same" {
+		src := rtp.Header{Version: 2, PayloadType: 96, SequenceNumber: 7, Timestamp: 7, SSRC: 0x5000, Extension: true, ExtensionProfile: 0xBEDE}
+		_ = src.SetExtension(uint8(c.ExtID), []byte{0x03, 0x09})
+		raw, err := src.Marshal()
+		if err != nil {
+			ctx.Fail("C15:harness", "%v", err)
+			return
+		}
+		orig := append([]byte(nil), raw...)
+		var hA, hC rtp.Header
+		if _, err := hA.Unmarshal(raw); err != nil {
+			ctx.Fail("C15:harness", "%v", err)
+			return
+		}
+		_, _ = hC.Unmarshal(raw)
+		hC.SSRC = 0x5002
+		_, _ = ws[0].Write(&hA, []byte{1}, nil)
+		_, _ = ws[2].Write(&hC, []byte{1}, nil)
+		if !bytes.Equal(raw, orig) {
+			ctx.Fail("C15:caller-buffer-modified", "the receive buffer the written header was parsed from was modified: %x, was %x", raw, orig)
+			return
+		}
+		for _, g := range out {
+			if g.stream == 2 {
+				if x := g.hdr.GetExtension(uint8(c.ExtID)); !bytes.Equal(x, []byte{0x03, 0x09}) {
+					ctx.Fail("C15:untouched-stream-modified", "a packet on the stream that did not negotiate the extension left with extension %d = %x, it was written with 0309", c.ExtID, x)
+					return
+				}
+			}
+		}
+		fan = 1
+		out = out[:0]
+	}
 	// sequential prefix (brings the counter close to the 2^16 wrap)
 	pre := rtp.Header{Version: 2, SSRC: 0x5000}
 	for i := 0; i < c.Prewrite; i++ {
@@ -113,7 +151,7 @@ func body(c config, ctx *hk.Ctx) {
 			return
 		}
 	}
-	preCount := len(out)
+	preCount := len(out) + fan
 	out = out[:0]
 	sentLog := make([][]sent, c.Writers)
 	var threads []*vsched.Thread
